@@ -36,6 +36,15 @@ pub fn analyze_encoding(array: &dyn Array) -> VectorEncoding {
         return VectorEncoding::Flat;
     }
 
+    // The constant/RLE/dictionary encoders below only understand these value
+    // types (see `extract_scalar_value`); everything else stays flat.
+    if !matches!(
+        array.data_type(),
+        DataType::Int64 | DataType::Float64 | DataType::Utf8 | DataType::Boolean
+    ) {
+        return VectorEncoding::Flat;
+    }
+
     // Check for constant array
     if is_constant(array) {
         return VectorEncoding::Constant;
@@ -59,8 +68,10 @@ pub fn analyze_encoding(array: &dyn Array) -> VectorEncoding {
 
 /// Check if all values in the array are identical
 fn is_constant(array: &dyn Array) -> bool {
-    if array.len() <= 1 {
-        return true;
+    // A constant array stores one non-NULL value (see `ConstantArray`): an
+    // array with NULL slots is not constant, whatever sits in its values buffer.
+    if array.is_empty() || array.null_count() > 0 {
+        return false;
     }
 
     // For primitive arrays
